@@ -246,11 +246,18 @@ def replay_without_map(vals, kind):
     for start, end in cands:
         if not (0 <= start < end <= 65536) or end + 2 > 65536:
             continue
-        for seq in ([0xC3, 0x00, 0x80], [0x21, 0x00, 0x80], [0xC9], [0x18, 0x00]):
+        # (the last three: a terminal instruction whose operand bytes are text, ending exactly at `end`, for the text pass
+        #  with a low TextMinLengthCode)
+        for seq in ([0xC3, 0x00, 0x80], [0x21, 0x00, 0x80], [0xC9], [0x18, 0x00], [0xC3, 0x30, 0x30], [0x18, 0x41], [0x3E, 0x41, 0xC3, 0x42, 0x43]):
             snap = [0] * 65536
-            at = end - 1 if len(seq) > 1 else end - 1
+            textual = seq in ([0xC3, 0x30, 0x30], [0x18, 0x41], [0x3E, 0x41, 0xC3, 0x42, 0x43])
+            at = end - len(seq) if textual else end - 1
+            if at < start:
+                continue
             snap[at:at + len(seq)] = seq
             cfg = _Cfg()
+            if textual:
+                cfg.text_min_length_code = 1 if len(seq) == 2 else 2
             try:
                 ctls = S._generate_ctls_without_code_map(snap, start, end, cfg, None)
             except Exception as ex:
@@ -345,6 +352,10 @@ def bounded_case(args):
     use_map = rnd.random() < 0.5
     tmp = None
     cfg = _Cfg()
+    if rnd.random() < 0.35:
+        # the TextMinLength* options of the property's quantifier
+        cfg.text_min_length_code = rnd.choice((1, 2, 3, 12))
+        cfg.text_min_length_data = rnd.choice((1, 2, 3))
     pre_viol = []
     orig = S._find_terminal_instruction
 
